@@ -245,7 +245,19 @@ def spec_table():
     gm = lambda g, M: [((M * (1 - np.eye(len(M))), g.dist(), int(np.count_nonzero(np.triu(M, 1))) + 2, np.array([-1.0, -0.5])),
                         {'gamma': np.array([0.5, 0.2]), 'model_type': mt, 'seed': 1, **kw})
                        for mt in ('matching', 'neighbors', 'euclidean', 'clu-avg', 'deg-avg', 'deg-prod', 'bogus') for kw in ({}, {'copy': False})]
-    S['generative_model'] = (['bin_u'], gm)
+    def gm_pinned(g, M):
+        """pinned witness of the open finding generative_model:mutates-argument-copy-false (independent of the seed):
+        ring of 6 nodes on the unit circle, two more connections requested, copy=False"""
+        n = 6
+        A = np.zeros((n, n))
+        for i in range(n):
+            A[i, (i + 1) % n] = A[(i + 1) % n, i] = 1.0
+        xy = np.array([[np.cos(2 * np.pi * i / n), np.sin(2 * np.pi * i / n)] for i in range(n)])
+        D = np.sqrt(((xy[:, None, :] - xy[None, :, :]) ** 2).sum(-1))
+        pin = [((A.copy(), D.copy(), n + 2, np.array([-1.0, -0.5])), {'gamma': np.array([0.5, 0.2]), 'model_type': mt, 'seed': 1, 'copy': False})
+               for mt in ('neighbors', 'matching')]
+        return pin + gm(g, M)
+    S['generative_model'] = (['bin_u'], gm_pinned)
     for f in ('get_components', 'get_components_old'):
         S[f] = (ALLFAM, lambda g, M: [((M,), {}), ((M,), {'no_depend': True})])
     S['get_rng'] = (['-'], lambda g, M: [((3,), {}), ((None,), {})])
@@ -540,8 +552,14 @@ def run(ctx):
     except Exception:
         pass
     dyn_deadline = t_dyn + (45.0 if not ctx.thorough else 700.0)
+    # functions the static checker flags (open findings, or a freshly introduced mutation) are driven first and are
+    # exempt from the wall-clock budget, so that their dynamic witness does not depend on machine load
+    flagged = [nm for nm in dyn_public if funs.get(nm) is None or funs[nm]['mut_t'] or (funs[nm]['mut_f'] and not funs[nm]['copyutil'])]
+    dyn_order = flagged + [nm for nm in dyn_public if nm not in flagged]
     for rnd in range(rounds):
-        for nm in dyn_public:
+        for nm in dyn_order:
+            if nm in flagged:
+                dyn_deadline += 8.0
             f = getattr(bct, nm)
             sig = inspect.signature(f)
             fams, build = S.get(nm, (ALLFAM, None))
@@ -554,7 +572,7 @@ def run(ctx):
                 build = one if nreq == 1 else generic_builder(sig)
                 if nreq == 0:
                     fams, build = ['-'], (lambda g, M: [((), {})])
-            budget = time.time() + (6.0 if not ctx.thorough else 40.0)
+            budget = time.time() + ((6.0 if nm not in flagged else 30.0) if not ctx.thorough else 40.0)
             for fam in fams:
                 if time.time() > budget or time.time() > dyn_deadline:
                     ctx.count('dynamic:budget_cut')
